@@ -204,7 +204,8 @@ func TestC01TokenSizes(t *testing.T) {
 		nines := strings.Repeat("9", k)
 		one0 := "1" + strings.Repeat("0", k-1)
 		for _, num := range []string{nines, one0, "-" + nines, one0 + ".5", "0." + nines, nines + "e2", "1e" + strconv.Itoa(k), "1e-" + strconv.Itoa(k)} {
-			run(t, Case{Property: "C01", Kind: "diff", Expr: "[" + lit(num) + ", " + lit("["+num+"]") + "[0], {a: " + lit(num) + "}]", Doc: "null", Extra: map[string]interface{}{"cell": "numlen"}})
+			run(t, Case{Property: "C01", Kind: "diff", Expr: "[" + lit(num) + ", " + lit("["+num+"]") + "[0], {a: " + lit(num) + "}]", Doc: "1", Extra: map[string]interface{}{"cell": "numlen"}})
+			run(t, Case{Property: "C01", Kind: "diff", Expr: lit(num), Doc: "null", Extra: map[string]interface{}{"cell": "numlen"}})
 			n++
 		}
 	}
@@ -268,5 +269,39 @@ func TestC04Runs(t *testing.T) {
 	st := statsFor(prop)
 	st.mu.Lock()
 	st.Exhaustive[prop+".runs"] = fmt.Sprintf("26 expression forms built from a run of 1..80 repetitions of one operator or bracket (!, parentheses, [], [*], .a, [0], pipes, ||, &&, filters, multi-selects, calls, slices, comparators): %d sentences", n)
+	st.mu.Unlock()
+}
+
+
+// TestC15Sizes: referential transparency and the pipe law around functions that might
+// work in place beyond a size threshold: the same array is read again after (or piped
+// out of) a function call.
+func TestC15Sizes(t *testing.T) {
+	ctxs := []string{"[sort_by(%s, &d)[0].i, %s[0].i, %s | [-1].i]", "[sort_by(%s, &s)[*].i, %s[*].i]", "[max_by(%s, &d).i, %s[0].i]", "[reverse(%s)[0].i, %s[0].i]", "[map(&i, %s)[0], %s[0].i]", "[%s[1:][0].i, %s[0].i]", "{a: sort_by(%s, &n)[0], b: %s[0]}"}
+	nctx := []string{"[sort(%s)[0], %s[0], %s | [-1]]", "[reverse(%s)[0], %s[0]]", "[max(%s), %s[0]]", "[sum(%s), avg(%s), %s[0]]", "[%s[::-1][0], %s[0]]"}
+	n := 0
+	for _, size := range sweepSizes() {
+		if size > 300 {
+			continue
+		}
+		doc := sizeDoc(size)
+		for _, c := range ctxs {
+			run(t, Case{Property: "C15", Kind: "subst", Expr: "objs", Doc: doc, Extra: map[string]interface{}{"ctx": c}})
+			run(t, Case{Property: "C15", Kind: "pipe", Expr: "{x: objs}", Doc: doc, Extra: map[string]interface{}{"b": strings.Replace(c, "%s", "x", -1)}})
+			n += 2
+		}
+		for _, c := range nctx {
+			for _, hole := range []string{"desc", "nums", "strs"} {
+				if hole == "strs" && strings.Contains(c, "sum(") {
+					continue
+				}
+				run(t, Case{Property: "C15", Kind: "subst", Expr: hole, Doc: doc, Extra: map[string]interface{}{"ctx": c}})
+				n++
+			}
+		}
+	}
+	st := statsFor("C15")
+	st.mu.Lock()
+	st.Exhaustive["C15.sizes"] = fmt.Sprintf("substitution and pipe laws with the same array read again after sort_by/sort/reverse/max_by/map/slices, for array sizes 0..72 and around 96..300: %d cases", n)
 	st.mu.Unlock()
 }
